@@ -328,6 +328,24 @@ func (f *Frame) nameIndex() map[string][]nameRef {
 // resolveLocal finds the SSA value for a source variable name as seen at the
 // header of loop l (nil loop: at function exit).
 func (f *Frame) resolveLocal(l *Loop, name string, st *State, phi map[*ssa.Phi]Val) (Val, bool) {
+	if name == "_i1" && l != nil {
+		// number of elements the innermost enclosing range loop has finished
+		var outer *Loop
+		for _, o := range f.loops {
+			if o != l && o.blocks[l.header] && (outer == nil || len(o.blocks) < len(outer.blocks)) {
+				outer = o
+			}
+		}
+		if outer == nil {
+			return Val{}, false
+		}
+		for _, p := range outer.phis {
+			if p.Comment == "rangeindex" {
+				return scalar(types.Typ[types.Int], Add(f.evalUnder(p, l, phi).one(), One)), true
+			}
+		}
+		return Val{}, false
+	}
 	if name == "_V1" && l != nil {
 		// visited set of the innermost enclosing loop
 		var outer *Loop
@@ -369,6 +387,12 @@ func (f *Frame) resolveLocal(l *Loop, name string, st *State, phi map[*ssa.Phi]V
 			}
 		}
 	}
+	// addr_x: the address of the addressable local x (a *T for a local of type T)
+	wantAddr := false
+	if strings.HasPrefix(name, "addr_") {
+		wantAddr = true
+		name = strings.TrimPrefix(name, "addr_")
+	}
 	refs := f.nameIndex()[name]
 	var best *nameRef
 	for i := range refs {
@@ -384,6 +408,12 @@ func (f *Frame) resolveLocal(l *Loop, name string, st *State, phi map[*ssa.Phi]V
 		return Val{}, false
 	}
 	v := f.evalUnder(best.v, l, phi)
+	if wantAddr {
+		if !best.isAddr {
+			return Val{}, false
+		}
+		return v, true
+	}
 	if best.isAddr {
 		return f.vc.load(st, f.ptrLoc(v)), true
 	}
